@@ -126,7 +126,7 @@ class Taus(object):
             self.pexit_grid.axes, np.log10(self.pexit_grid.data)
         )
 
-        Pexit = np.zeros_like(betas)
+        Pexit = np.zeros(np.shape(betas), dtype=np.float64)
 
         Pexit[valid] = pexit_interp((log_e_nu[valid], betas[valid]))
         Pexit[beta_low] = pexit_interp((log_e_nu[beta_low], beta_min))
@@ -149,7 +149,7 @@ class Taus(object):
 
         tau_cdf_sample = grid_cdf_sampler(self.tau_cdf_grid)
 
-        E_tau = np.zeros_like(betas)
+        E_tau = np.zeros(np.shape(betas), dtype=np.float64)
 
         E_tau[valid] = tau_cdf_sample(
             log_e_nu[valid], betas[valid], None if u is None else u[valid]
@@ -161,7 +161,7 @@ class Taus(object):
         )
         E_tau[beta_high] = np.finfo(np.float32).eps
 
-        return E_tau * (10**log_e_nu)
+        return E_tau * (10.0 ** np.asarray(log_e_nu, dtype=np.float64))
 
     @decorators.nss_result_plot(
         taus_density_beta, taus_histogram, taus_pexit, taus_overview
